@@ -225,8 +225,10 @@ def check_fields(run, rule, f, cfg, dialect, registry, unsupported, guards_ok):
             run.ob(rule, "field:%s:%s" % (dialect, key), True, "%s: field %s reaches the output of %s" % (dialect, key, method), sp=t.fn["sp"], cfg=cfg, trivial=True)
             if prefix:
                 continue
-            # guards: only the field's own emptiness - on at least one rendering path
-            rendering = [u for u in us if u["how"] != "guard"] or us
+            # guards: only the field's own emptiness - on at least one rendering path.  A field that is only ever tested
+            # (flags, Options matched for their variant) is rendered by what is written under those tests.
+            direct = [u for u in us if u["how"] not in ("guard", "guarded-write")]
+            rendering = direct or [u for u in us if u["how"] == "guarded-write"] or us
             if any(all(not [x for x in g["fields"] if x != fl] for g in u["guards"]) for u in rendering):
                 continue
             seen = set()
@@ -1098,6 +1100,8 @@ def check_element_sites(run, rule, f, cfg, select=None):
         if select is not None and not select(name):
             continue
         params = {p["pat"].get("id") for p in fn["params"] if p["pat"].get("k") == "bind"}
+        if not any("SqlWriter" in (f.ty(p.get("ty")) or "") for p in fn["params"]):
+            continue        # not a renderer: a predicate / helper that inspects a statement writes nothing
         locs = {}
         for nd in walk(fn["hir"]):
             if nd.get("k") == "local" and nd.get("id") not in params:
